@@ -23,6 +23,7 @@ import z3  # noqa: E402
 
 from checks.common import Check, Claim, scenario, sopht_modules  # noqa: E402
 from symsopht import smt  # noqa: E402
+from checks import c15_sites  # noqa: E402,F401
 
 
 def _z3_check(cons, tag, timeout=20000):
@@ -206,12 +207,7 @@ def main():
         chk.add(kernel_cells_independent, generator=g)
     for m in ("sopht.numeric.immersed_boundary_ops.EulerianLagrangianGridCommunicator2D", "sopht.numeric.immersed_boundary_ops.EulerianLagrangianGridCommunicator3D"):
         chk.add(spreading_is_serial, module=m)
-    try:
-        from checks import c15_sites
-
-        c15_sites.schedule(chk)
-    except ImportError:
-        chk.outside.append("call-site aliasing part (b) not yet built")
+    c15_sites.schedule(chk)
     chk.bounds = ["(a) unbounded in grid sizes and cells (integer solver variables); one query per (written access, access to the same field) of every kernel",
                   "(b) call sites of the enumerated simulator/solver/coupling configurations at the enumerated shapes"]
     chk.outside += ["OpenMP runtime, RESTRICT qualifiers emitted by pystencils 2.0, numpy's handling of overlapping slice assignment", "FFTW/LAPACK internal threading"]
